@@ -87,8 +87,17 @@ example :
     pod metadata / spec parameters -/
 theorem C14_no_pod_writes : Generated.podWrites = [] := by decide
 
+/-- tie obligation (F9): evaluating writes no state that outlives the call — nothing in package `policy` stores through a
+    method receiver (the registry is immutable once `NewEvaluator` returned), updates a package-level map or calls a sync /
+    atomic mutator, apart from the administrator's setter of the user-namespace switch (C19). An evaluator therefore cannot
+    answer differently because of what, or how many goroutines at once, it evaluated before. -/
+theorem C14_evaluator_immutable :
+    Generated.stateWrites.filter (fun w => w.1 = b!"policy" ∧ w.2.1 ≠ b!"policy.RelaxPolicyForUserNamespacePods") = [] := by
+  decide
+
 #print axioms C14_rev_order_independent
 #print axioms C14_order_independent
 #print axioms C14_values_canonical
 #print axioms C14_no_pod_writes
+#print axioms C14_evaluator_immutable
 end PSA.Props
